@@ -431,6 +431,10 @@ func (c *Core) SubmitTxWithProof(ctx context.Context, tx *transaction.SignedTran
 		return nil, err
 	}
 
+	if proof.Height <= 0 {
+		// Zero would be resolved as the latest height by the light client.
+		return nil, fmt.Errorf("malformed proof height: %d", proof.Height)
+	}
 	lb, err := c.lightBlock(ctx, proof.Height)
 	if err != nil {
 		return nil, err
